@@ -2092,6 +2092,15 @@ def apply_renames(P, base):
                   and old_callees <= _callees_through_new(P, f, base)
                   and any(f.key in _local_callees(P, P.fns[c]) or any(f.key in _local_callees(P, g) for g in P.fn_list if g.kind == 'closure' and g.root == c)
                           for c in old_callers if c in P.fns)]
+            if not cs:
+                # ... and was renamed on the way (`Inner::add_free_region(addr, size)` -> `FreeList::push(addr, size)`), possibly into a new
+                # module of the same crate: accepted only when it is the single such candidate
+                cs = [f for f in new if not f.trait and is_new_type(f) and f.key.split('::', 1)[0] == k.split('::', 1)[0]
+                      and len(fn_signature(f)) == len(base[k]) and len(base[k]) > 2 and fn_signature(f)[0] == base[k][0] and fn_signature(f)[2:] == base[k][2:]
+                      and old_callees <= _callees_through_new(P, f, base)
+                      and any(f.key in _callees_through_new(P, P.fns[c], base) for c in old_callers if c in P.fns)]
+                if len(cs) != 1:
+                    cs = []
         if not cs and len(base[k]) > 1:
             # a method whose receiver record was unpacked into parameters (`ev.handle_with_sink(sink)` -> `forward_message(ev.con, ev.msg, sink)`):
             # the receiver's field types replace the receiver in the signature; still calls what the old one called, pinned callers call it
